@@ -74,3 +74,32 @@ Definition wcase_ok_machine (c : wcase) : bool :=
 
 Definition wcase_ok_abs (c : wcase) : bool :=
   let '(bs, ops, bytes, sizes) := c in list_eqb N.eqb (concat (map wbytes ops)) bytes.
+
+(* ---- the Python reader (_binary.py CodedInputStream) ---- *)
+From YV Require Import Model.CodedPy.
+
+Definition pfault_eqb (a b : pfault) : bool :=
+  match a, b with
+  | BufferErr, BufferErr | PStale, PStale | POutOfFuel, POutOfFuel => true
+  | _, _ => false
+  end.
+
+Definition pres_eqb {A} (eqb : A -> A -> bool) (a b : pres A) : bool :=
+  match a, b with
+  | POk x, POk y => eqb x y
+  | PEof, PEof => true
+  | PFault x, PFault y => pfault_eqb x y
+  | _, _ => false
+  end.
+
+Definition pcase := (nat * list N * list pop * list (pres rval))%type.
+
+(* the machine model agrees with the observation, exception kinds included *)
+Definition pcase_ok_machine (c : pcase) : bool :=
+  let '(bs, inp, ops, obs) := c in
+  list_eqb (pres_eqb rval_eqb) (prun bs (pin_init inp) ops) obs.
+
+(* the byte-level contract agrees with the observation, any exception standing for end-of-input *)
+Definition pcase_ok_abs (c : pcase) : bool :=
+  let '(bs, inp, ops, obs) := c in
+  list_eqb (pres_eqb rval_eqb) (parun inp ops) (map pnorm obs).
